@@ -176,7 +176,10 @@ TemplateRecover == En_TemplateRecover(s) /\ s' = Do_TemplateRecover(s)
 Return == En_Return(s) /\ s' = Do_Return(s)
 HostPanic == En_HostPanic(s) /\ s' = Do_HostPanic(s)
 
-Init == \E p \in Shapes : \E k \in 1..(NWrites(p) + 1) : \E st \in BOOLEAN : s = S0(p, k, st, ConvFatal)
+\* (a sticky writer differs from one that fails once only if the render goes on after the failure, i.e. only
+\* if the program can recover)
+Stickiness(p) == IF \E i \in DOMAIN p : p[i] = "DR" THEN BOOLEAN ELSE {FALSE}
+Init == \E p \in Shapes : \E k \in 1..(NWrites(p) + 1) : \E st \in Stickiness(p) : s = S0(p, k, st, ConvFatal)
 Next == WriteOk \/ WriteFail \/ BufWrite \/ RaiseOutError \/ ConverterWrite \/ ConverterError \/ Call \/ Defer \/ Ret
         \/ Unwind \/ TemplateRecover \/ Return \/ HostPanic
 
